@@ -78,9 +78,9 @@ T = [
     dict(h=_h("spawn_arr_str"), id="C08.spawn.captures_copied.array", props=["C08"], fn="step arm SpawnTask / Value::deep_copy",
          bounded=B, text="same contract, captures (array[scalar;1], string) - the language reference's own example captures an array"),
     dict(h=_h("fifo_one_scalar", "fifo_one_str_struct", "fifo_one_mix_int_str", "fifo_two_scalar", "fifo_two_str_struct",
-              "fifo_two_mix_job"), id="C09.chan.write_read.fifo",
+              "fifo_two_mix_job", "fifo_many_scalars"), id="C09.chan.write_read.fifo",
          props=["C09", "C08"], fn="step arms ConstructChannel, ChannelWrite, ChannelRead / ChannelObject::{new,write_value,read_value}",
-         bounded=B + "; histories write,write,read,read on one thread and writer A / reader B",
+         bounded=B + "; histories write,write,read,read on one thread and writer A / reader B; one history of five scalar values (4 queued, 2 read, 1 written, 3 read)",
          text="each write consumes (channel, value) and appends one element; each read replaces the channel on the stack by a value and "
               "removes exactly one element; first read matches the model of the FIRST written value, second the SECOND; received values "
               "are made only of objects allocated by that read in the reader's heap (disjoint from the writer's); writer undisturbed; "
